@@ -10,6 +10,7 @@ From WG Require Import BV.Bits.
 From WG Require Import Par.Splice.
 From WG Require Import Flags.Props.
 From WG Require Import Algo.EssSpec.
+From WG Require Import Algo.Ess.
 
 Extraction Language OCaml.
 
@@ -72,4 +73,11 @@ Extraction "model.ml"
   check_rad
   check_rv
   check_ess_dm
+  replay
+  run_ops
+  init_st
+  find_missing
+  missing_nodes
+  output
+  check_values
 .
